@@ -567,3 +567,67 @@ def _sudoku_grid():
         [0, 0, 0, 0, 4, 0, 2, 0, 0],
         [0, 0, 1, 0, 5, 0, 6, 0, 0],
     ]
+
+
+# ------------------------------------------------------------------------ knapsack with SYMBOLIC instance parameters
+from .explore import register  # noqa: E402
+
+
+@register("model_knapsack")
+def make_knapsack(n=3):
+    """the real KnapsackProblem constructor on symbolic volumes and capacity (weights concrete): every path of the
+    constructor is explored; on each path z3 decides network <=> definition (so no valid packing is lost and none is
+    invented, whatever the instance)"""
+    from . import core
+    from .core import SymInt
+
+    weights = [6, 5, 12, 7][:n]
+
+    def body(E):
+        from nucs.examples.knapsack.knapsack_problem import KnapsackProblem
+
+        vol = [z3.Int(f"vol{i}") for i in range(n)]
+        cap = z3.Int("cap")
+        for v in vol:
+            E.solver.add(v >= 1, v <= 6)
+        E.solver.add(cap >= 1, cap <= 8)
+        pb = KnapsackProblem(list(weights), [SymInt(v) for v in vol], SymInt(cap))
+        # extraction with symbolic parameters: coefficients of the posted affine constraints may be symbolic; the 0/1 item
+        # variables make the products linear once written as if-then-else
+        import nucs.propagators.propagators as P
+
+        nd = len(pb.shr_domains_lst)
+        x = [z3.Int(f"k{i}") for i in range(nd)]
+
+        def zz(t):
+            return t.e if isinstance(t, SymInt) else z3.IntVal(int(t))
+
+        bounds = AND([z3.And(zz(lo) <= x[i], x[i] <= zz(hi)) for i, (lo, hi) in enumerate(pb.shr_domains_lst)])
+
+        def times(c, xi, boolean):
+            return z3.If(xi == 1, zz(c), 0) if boolean else zz(c) * xi
+
+        cons = []
+        for pv, alg, params in pb.propagators:
+            name = alg_name(P, alg)
+            assert name in ("affine_leq", "affine_eq"), name
+            lhs = zsum([times(c, x[int(v)], int(v) < n) for c, v in zip(params[:-1], pv)])
+            cons.append(lhs <= zz(params[-1]) if name == "affine_leq" else lhs == zz(params[-1]))
+        phi = z3.And(bounds, AND(cons))
+        take = x[:n]
+        total = x[int(pb.weight)]
+        valid = z3.And(AND([z3.And(0 <= t, t <= 1) for t in take]), zsum([z3.If(take[i] == 1, vol[i], 0) for i in range(n)]) <= cap, total == zsum([z3.If(take[i] == 1, weights[i], 0) for i in range(n)]))
+        E.acc.count("constructor-path")
+
+        def wit(m):
+            return dict(harness="models", model="knapsack", size=n, weights=weights, volumes=[E.ev(m, v) for v in vol], capacity=E.ev(m, cap))
+
+        if E.query(z3.And(phi, z3.Not(valid))):
+            m = E.model()
+            E.acc.violation(dict(prop="C20", kind="model=>valid (symbolic instance)", site="knapsack", cls=None, **wit(m)))
+        if E.query(z3.And(valid, z3.Not(phi))):
+            m = E.model()
+            best = sum(w for w, t in zip(weights, take) if E.ev(m, t) == 1)
+            E.acc.violation(dict(prop="C20", kind="valid=>model (symbolic instance): a valid packing is excluded by the model", site="knapsack", cls=None, lost_packing=[E.ev(m, t) for t in take], **wit(m)))
+
+    return body
